@@ -21,6 +21,12 @@ Four exhaustive enumerations against the real spec factories / providers / seria
                    (blacklist.add_*) and through collect.apply_blacklist; B3: component names (implementation, registry point,
                    unknown) through apply_blacklist; B2: one real DefaultSpecs spec per factory kind with
                    symbolic names / component name / exact item / controls; B4: alias spellings (measurement).
+                   B8: the SAME string asked as a file and as a command in one process (a host path collected by a file
+                   spec and run without arguments by a command spec; the deny list names it under none / one / both of
+                   `files` and `commands`; both evaluation orders and the alternating ones of length 3) through every file
+                   factory x every command factory that can run a bare path; B9: every history (<= 3 quick / <= 4
+                   thorough) of public calls allow_file / allow_command / add_file / add_command over a small alphabet,
+                   against two independent sets + the documented rule (the deny lists of files and commands are separate).
                    Evaluated with dr.run under a recording HostContext subclass, open()/Popen audited,
                    component bodies watched with sys.setprofile.
   C  persistence   every provider family (file, command, container file, container command, DatasourceProvider)
@@ -67,6 +73,9 @@ RULE = ("A: full product layout x root-slash x context x provider kind x factory
         "(non-trivial: some file the path/pattern designates has its real location outside the root); "
         "B: datasource kind x (Text/Raw) x filtered x feeding route x every prefix of every produced command line/"
         "path as deny entry (non-trivial: the entry denies at least one produced item, or a component is disabled); "
+        "B8: file factory x command factory over ONE string x deny {none, file, command, both} x order of evaluations in one "
+        "process (non-trivial: the deny list names the string under exactly one of the two kinds); B9: every history of allow_file / allow_command / "
+        "add_file / add_command calls up to a length (non-trivial: some question had to be answered 'denied'); "
         "C: provider family x factory x save_as x path/command string (non-trivial: a file was created by the persister); "
         "C2: ordered pairs of file specs persisted into one archive (non-trivial: both produced providers and the second "
         "wrote where the first had written); "
@@ -111,9 +120,13 @@ TNAMES = list(TARGETS)
 BOUNDS = {
     "quick": {"A_path_segments_full": 3, "A_path_segments_existing_only": 4, "A_layouts": "none + 22 single links + 20 two-link chains; root forms: plain (all), trailing slash (none + 11 links at root/l), symlinked root (none + 5 links at root/l)", "A_extra_paths": "10 degenerate spellings ('', ., /, //f, ./f, d/./f, d//f, f/, f/., d/) + metachar patterns (one segment of ?, [dfl], root?, r*, *[!x], [s]ecret) that match",
               "B_entries": "every prefix of every produced item, item+' x', item+'x'", "B_simultaneous_entries": "unfiltered units: prefix-related pairs (denying x non-denying prefix of one item) in both table orders, prefix chains of 3 (a<d<b) in all 6 orders", "B_other": "B2 real specs, B3 component names, B4 aliases x 4 factories, B5 mixed files/commands/components configurations (200), B6 evaluate-extend-evaluate histories",
+              "B8_same_string_as_file_and_command": "4 file factories x 3 command factories (bare path) x {Text, Raw} x deny {none, file, command, both} x 2 feeding routes x evaluation orders {FC, CF, FCF, CFC} in one process; string /bin/echo",
+              "B9_history_length": 3, "B9_alphabet": "ask(file|command, s) for 4 strings, add(file|command, e) for 2 entries; every history ending in a question, from empty tables, 2 feeding routes",
               "C_file_path_segments": 5, "C_layouts": 3, "C2_path_segments": 2, "C2_layouts": 4, "C_save_as": "none, '', /, x, dir/, absolute", "C_container_ids": "c1, .., ../.., a/b, absolute", "C_cmd_tokens": 3, "C_label_segments": 5, "M_tokens": 5},
     "thorough": {"A_path_segments_full": 4, "A_path_segments_existing_only": 5, "A_layouts": "none + 22 single links + all 121 two-link pairs; root forms: plain (all), trailing slash (none + 22 single links), symlinked root (none + 11 links at root/l), symlink+slash (none)", "A_extra_paths": "10 degenerate spellings + metachar patterns that match",
                  "B_entries": "every prefix of every produced item, item+' x', item+'x'", "B_simultaneous_entries": "all pairs in both orders; prefix chains of 3 (every shorter non-denying prefix x denying x 2 extensions) in all 6 orders", "B_other": "as quick",
+                 "B8_same_string_as_file_and_command": "as quick with all 8 orders of length <= 3 that ask under both kinds; strings /bin/echo, /usr/bin/env",
+                 "B9_history_length": 4, "B9_alphabet": "as quick",
                  "C_file_path_segments": 5, "C_layouts": 8, "C2_path_segments": 3, "C2_layouts": 8, "C_save_as": "none, '', /, x, dir/, absolute", "C_container_ids": "c1, .., ../.., a/b, absolute", "C_cmd_tokens": 4, "C_label_segments": 5, "M_tokens": 6},
 }
 CAP_S = {"quick": 600, "thorough": 3000}      # wall-clock guards only; the machine is shared, cost is tracked in CPU seconds
@@ -955,6 +968,153 @@ def b6_steps(variant):
     return [[None, d], [n, d], [d, d2], [d, None], [None, n, d], [d2, d, None]]
 
 
+# ---- B8 / B9: the same string through both doors - asked as a FILE and as a COMMAND in one process -------------------
+#
+# The statement quantifies over "every deny list of files, commands and component names": the two lists are separate, an
+# entry under `files` says nothing about commands and vice versa.  A path of the host can be collected as a file by one
+# spec and run (without arguments) as a command by another one, so one process asks about the SAME string under both
+# kinds.  B8 does that through the spec factories (histories of evaluations over one spec set, deny list naming the
+# string under none / one / both kinds), B9 through the public matching functions blacklist.allow_file / allow_command
+# (every history of queries and add_* calls up to a length).  Reference: two independent sets + the documented rule.
+
+B8_STRINGS = {"quick": ["/bin/echo"], "thorough": ["/bin/echo", "/usr/bin/env"]}   # resolvable binaries (which() precedes the deny check)
+B8_ALL_STRINGS = ["/bin/echo", "/usr/bin/env"]                                       # ... that also exist as files inside the root
+B8_FILE_FACTORIES = ["simple_file", "glob_file", "first_file", "foreach_collect"]
+B8_CMD_FACTORIES = ["simple_command", "command_with_args", "foreach_execute"]       # the kinds that can run a bare path
+B8_DENY = ["none", "file", "command", "both"]
+
+
+def b8_orders(tier):
+    """Every sequence over {file, command} that asks under both kinds: length 2 (both orders) and, quick, the two
+    alternating ones of length 3; thorough: all six of length 3."""
+    out = [["file", "command"], ["command", "file"]]
+    for t in itertools.product(["file", "command"], repeat=3):
+        if len(set(t)) == 2 and (tier == "thorough" or t[0] == t[2]):
+            out.append(list(t))
+    return out
+
+
+def b8_build(s, ffac, cfac, kind):
+    I = imp()
+    sf, HC = I["sf"], I["cx"].HostContext
+    b = Built()
+    k, raw = kind_class(kind), kind == "Raw"
+    d, n = os.path.dirname(s), os.path.basename(s)
+    if ffac == "simple_file":
+        b.add("f", sf.simple_file(s, context=HC, kind=k), "single", [s], "file", reports=True, raw=raw)
+    elif ffac == "glob_file":
+        b.add("f", sf.glob_file(s[:-1] + "*", context=HC, kind=k), "multi", [s], "file", multi_output=True, raw=raw)
+    elif ffac == "first_file":
+        b.add("f", sf.first_file(["/c06-absent", s], context=HC, kind=k), "first", [s], "file", raw=raw)
+    elif ffac == "foreach_collect":
+        b.add("f", sf.foreach_collect(b.source([n]), d + "/%s", context=HC, kind=k), "multi", [s], "file", multi_output=True, raw=raw)
+    else:
+        raise ValueError(ffac)
+    if cfac == "simple_command":
+        b.add("c", sf.simple_command(s, context=HC), "single", [s], "command", reports=True)
+    elif cfac == "command_with_args":
+        b.add("c", sf.command_with_args("%s", b.source(s), context=HC), "single", [s], "command")
+    elif cfac == "foreach_execute":
+        b.add("c", sf.foreach_execute(b.source([s]), "%s", context=HC), "multi", [s], "command", multi_output=True)
+    else:
+        raise ValueError(cfac)
+    return b.finish()
+
+
+class _View(object):
+    """Some specs of a Built, presented to b_observe as a spec set of their own."""
+
+    def __init__(self, built, names):
+        self.specs = [s for s in built.specs if s["name"] in names]
+
+    def graph(self):
+        dr = imp()["dr"]
+        g = {}
+        for s in self.specs:
+            g.update(dr.get_dependency_graph(s["rp"]))
+        return g
+
+
+def b8_check(case):
+    """One spec set with a FILE spec and a COMMAND spec over the same string; the deny list (complete before the first
+    evaluation) names the string under `deny` in {none, file, command, both}; the specs are then evaluated one at a time,
+    in the given order, in ONE process (fresh broker and context each).  Each evaluation is judged on its own against the
+    deny entries OF ITS KIND.
+    case: {"part":"B8","string","file_factory","cmd_factory","kind","deny","feed","order": ["file"|"command", ...]}"""
+    s, deny = case["string"], case["deny"]
+    ents = {"file": [s] if deny in ("file", "both") else [], "command": [s] if deny in ("command", "both") else []}
+    viols, outs = [], []
+    with scratch("c06b") as base:
+        T, root = E.build_universe(base, extra_files=B_FILES + ["root" + x for x in B8_ALL_STRINGS])
+        with E.GlobalState():
+            built = b8_build(s, case["file_factory"], case["cmd_factory"], case["kind"])
+            try:
+                for et in ("file", "command"):
+                    b_feed(case["feed"], et, ents[et])
+                for i, et in enumerate(case["order"]):
+                    del imp()["blacklist"].BLACKLISTED_SPECS[:]          # public list, reported per evaluation
+                    view = _View(built, ["f"] if et == "file" else ["c"])
+                    obs = b_observe(view, root, base)
+                    for v in b_judge([dict(x) for x in view.specs], ents, None, obs, root):
+                        viols.append((v[0], v[1], dict(v[2], step=i, asked_as=et), dict(v[3], history="same-string-both-kinds")))
+                    outs.append("%s%d" % (et[0], sum(len(v) for v in obs["got"].values())))
+            finally:
+                built.dispose()
+    return viols, {"nontrivial": deny in ("file", "command"),       # the string is named under exactly one of the kinds asked
+                   "outcome": "B8:%s:%s:%s" % (case["file_factory"], case["cmd_factory"], ">".join(outs))}
+
+
+B9_STRINGS = ["/bin/echo", "/bin/echo a", "/bin/ech", "/g/a"]
+B9_ENTRIES = ["/bin/echo", "/g/a"]          # not prefix-related: the iteration order of a table cannot reach a verdict here
+
+
+def b9_ops():
+    return ([["ask", k, s] for k in ("file", "command") for s in B9_STRINGS] +
+            [["add", k, e] for k in ("file", "command") for e in B9_ENTRIES])
+
+
+def b9_histories(n):
+    """Every sequence of <= n operations that ends in a question (a trailing add_* is observed by nobody)."""
+    ops = b9_ops()
+    for k in range(1, n + 1):
+        for t in itertools.product(ops, repeat=k):
+            if t[-1][0] == "ask":
+                yield [list(o) for o in t]
+
+
+def b9_check(case):
+    """A history of public calls on the deny list in ONE process, from empty tables: ["add", kind, entry] feeds an entry
+    (blacklist.add_* or collect.apply_blacklist), ["ask", kind, string] calls blacklist.allow_file / allow_command.
+    Reference: two independent sets and the documented rule.  Not decided (statement silent, see module docstring): a
+    FILE question whose string continues a file entry with a blank.
+    case: {"part":"B9","feed","ops":[...]}"""
+    I = imp()
+    bl = I["blacklist"]
+    model = {"file": [], "command": []}
+    viols, answers = [], []
+    denied_seen = False
+    with E.GlobalState():                               # the tables are empty at import and restored after every case
+        for i, (op, k, x) in enumerate(case["ops"]):
+            if op == "add":
+                b_feed(case["feed"], k, [x])
+                if x not in model[k]:
+                    model[k].append(x)
+                continue
+            got = bool((bl.allow_file if k == "file" else bl.allow_command)(x))
+            exp = not ref_denied(x, model[k], k)
+            answers.append("%s%d" % (k[0], got))
+            if k == "file" and any(x[:len(e) + 1] == e + " " for e in model[k]):
+                continue                                # entry followed by a blank, asked as a file: not decided
+            denied_seen = denied_seen or not exp
+            if got != exp:
+                viols.append(("deny:denied-string-allowed" if got else "deny:allowed-string-denied",
+                              {"step": i, "allow_%s(%r)" % (k, x): exp, "files": list(model["file"]), "commands": list(model["command"])},
+                              {"step": i, "allow_%s(%r)" % (k, x): got},
+                              {"door": "allow_" + k, "history": "same-string-both-kinds" if any(
+                                  o[0] == "ask" and o[2] == x and o[1] != k for o in case["ops"][:i]) else "other"}))
+    return viols, {"nontrivial": denied_seen, "outcome": "B9:" + "".join(answers)}
+
+
 # ---- B7: the public collection entry point collect.collect(manifest=..., rm_conf=...) ---------------------------------
 
 B7_DENY = [("none", None), ("component", "cmd"), ("component", "file"), ("symbolic-commands", "cmd"), ("symbolic-commands", "file"),
@@ -1330,6 +1490,21 @@ def run_B(unit, tier, res):
                 for feed in ("direct", "apply_blacklist"):
                     for steps in b6_steps(variant):
                         _record(res, {"part": "B6", "variant": variant, "kind": kind, "feed": feed, "steps": steps}, b6_check)
+    elif sub == "B8":
+        for s in B8_STRINGS[tier]:
+            for kind in KINDS:
+                for deny in B8_DENY:
+                    for feed in ("direct", "apply_blacklist"):
+                        for order in b8_orders(tier):
+                            _record(res, {"part": "B8", "string": s, "file_factory": unit["file_factory"],
+                                          "cmd_factory": unit["cmd_factory"], "kind": kind, "deny": deny, "feed": feed,
+                                          "order": order}, b8_check)
+    elif sub == "B9":
+        n = BOUNDS[tier]["B9_history_length"]
+        first = unit["first"]
+        for ops in b9_histories(n):
+            if first is None or ops[0] == first:
+                _record(res, {"part": "B9", "feed": unit["feed"], "ops": ops}, b9_check)
     elif sub == "B4":
         for f in FILE_VARIANTS:
             for alias in ALIASES:
@@ -1851,6 +2026,12 @@ def units(tier, seed):
     us.append({"part": "B", "sub": "B5"})
     us.append({"part": "B", "sub": "B7"})
     us.append({"part": "B", "sub": "B6"})
+    for ff in B8_FILE_FACTORIES:
+        for cf in B8_CMD_FACTORIES:
+            us.append({"part": "B", "sub": "B8", "file_factory": ff, "cmd_factory": cf})
+    for feed in ("direct", "apply_blacklist"):
+        for first in (b9_ops() if tier == "thorough" else [None]):      # quick: one unit per feeding route
+            us.append({"part": "B", "sub": "B9", "feed": feed, "first": first})
     for links in C_LAYOUTS[tier]:
         for i in range(4):
             us.append({"part": "C", "family": "file", "links": links, "shard": i, "of": 4})
@@ -1906,6 +2087,10 @@ def replay(case):
         viols, _ = b7_check(case)
     elif part == "B6":
         viols, _ = b6_check(case)
+    elif part == "B8":
+        viols, _ = b8_check(case)
+    elif part == "B9":
+        viols, _ = b9_check(case)
     elif part in ("C", "C2"):
         viols = replay_C(case)
     elif part == "M":
@@ -1922,8 +2107,9 @@ TECHNIQUE = ("bounded exhaustive enumeration of directory layouts x relative pat
              "a file-system diff")
 LEVEL_TEXT = ("Stateless exploration of the real implementation over a finite, fully enumerated input space: every "
               "relative path up to the bound over an alphabet with one symbol per escape route, every symlink layout of a "
-              "universe with a name-prefix sibling, every prefix of every produced command line as deny entry, every "
-              "provider family and save_as form. Containment is decided component-wise on real paths and cross-checked "
+              "universe with a name-prefix sibling, every prefix of every produced command line as deny entry, the same "
+              "string asked as a file and as a command in every order within one process (spec factories and the public "
+              "matching functions, every call history up to a length), every provider family and save_as form. Containment is decided component-wise on real paths and cross-checked "
               "against the content actually served; the deny list against an independent statement of the documented "
               "matching rule; persistence by diffing the file system. The claim is 'no counterexample within the bound'.")
 LEVEL_NOTE = ("Trusted: os.path.realpath/commonpath, the audit events `open` and `subprocess.Popen`, the recording context "
